@@ -718,12 +718,14 @@ func entry.load#cc
   opt cellhavoc on
   requires m != nil && expunged != nil && !fresh(expunged) && !fresh(m)
   ensures[zero] !ok ==> value == zero(T)
+  ensures[instant] ok == elive(m) && (ok ==> value == deref(m.p, T))
   assigns heap
 
 func entry.tryStore#cc
   property C03, C05, C09
   opt cellhavoc on
   requires m != nil && expunged != nil && !fresh(expunged) && !fresh(m) && i != nil && i != expunged
+  ensures[instant] (result ==> m.p == i) && (!result ==> m.p == expunged)
   assigns heap
   loop 0 invariant m != nil
 
@@ -733,6 +735,7 @@ func entry.unexpungeLocked#cc
   rely (old(m.p) == expunged) == (m.p == expunged)
   requires m != nil && expunged != nil && !fresh(expunged) && !fresh(m)
   ensures[live] m.p != expunged
+  ensures[instant] wasExpunged ==> m.p == nil
   assigns heap
 
 func entry.storeLocked#cc
@@ -749,6 +752,7 @@ func entry.tryLoadOrStore#cc
   opt cellhavoc on
   requires m != nil && expunged != nil && !fresh(expunged) && !fresh(m)
   ensures[notok] !ok ==> !loaded
+  ensures[instant] (!ok ==> m.p == expunged) && (ok && loaded ==> elive(m) && actual == deref(m.p, T)) && (ok && !loaded ==> elive(m) && fresh(m.p) && deref(m.p, T) == i && actual == i)
   assigns heap
   loop 0 invariant m != nil
 
@@ -757,6 +761,7 @@ func entry.delete#cc
   opt cellhavoc on
   requires m != nil && expunged != nil && !fresh(expunged) && !fresh(m)
   ensures[zero] !ok ==> value == zero(T)
+  ensures[instant] (ok ==> m.p == nil) && (!ok ==> !elive(m))
   assigns heap
   loop 0 invariant m != nil
 
